@@ -734,8 +734,17 @@ func (ex *executor) callStep(idx int, st *Step) {
 		ex.log.Addf("  trip %s %s real=%d delivered=%d cut=%d fault=%s rewrite=%q err=%v", t.Method, t.URI, t.RealStatus, t.Status, t.CutAt, t.Faulted, t.Rewritten, t.Err)
 		last = t
 		if t.Faulted != "" {
-			ex.res.Stats.FaultsFired["resp:"+t.Faulted]++
+			seam := "resp"
+			for _, f := range st.Faults {
+				if f.Kind == t.Faulted {
+					seam = f.Seam // counted under the name it was planned under
+				}
+			}
+			ex.res.Stats.FaultsFired[seam+":"+t.Faulted]++
 		}
+	}
+	if cancelAt >= 0 && !stalled && ctx.Err() != nil && took >= cancelAt {
+		ex.res.Stats.FaultsFired["cancel:cancel"]++
 	}
 	ex.log.Addf("  = items=%d deleted=%v err=%s", len(res.Items), res.Dele, clipS(errs, 300))
 	bad := func(clause, msg string) {
